@@ -319,6 +319,10 @@ static int ptr_sym(uintptr_t v)
     if ((b = shim_find((const void *)v)) != NULL && b->tag >= 0 && b->tag < MAXA && cls_of[b->tag] >= 0) {
         a = b->tag; KB_C(b->p == AL[a].mem ? 'M' : 'B'); KB_U((unsigned)cls_of[a]); KB_C('+'); KB_U((unsigned long)(v - (uintptr_t)b->p)); return 1;
     }
+    /* an address on the stack (seed C20-7d: swap through a guarded temporary leaves the second object's guard word pointing at the dead temporary): the
+     * stack moves from run to run, a key holding the raw word cannot be replayed ("cannot decide").  All such words get one name: what the slot holds
+     * is not a function of the state anyway, and the object's next use is judged by the abort oracle. */
+    { volatile char here; uintptr_t h = (uintptr_t)&here; if (v > h - ((uintptr_t)8 << 20) && v < h + ((uintptr_t)8 << 20)) { KB_C('Y'); return 1; } }
     return 0;
 }
 /* canonical key: allocation classes renumbered by first appearance over the objects; per class owners/weaks/alive; raw guard words */
